@@ -28,6 +28,7 @@ type c08Case struct {
 	Edit     string   `json:"edit"` // description of the single edit ("" = valid script)
 	CutClass string   `json:"cut_class"`
 	CutSeed  string   `json:"cut_seed"`
+	Overtake bool     `json:"reply_overtakes_writer,omitempty"`
 	KeyBits  int      `json:"key_bits"`
 	NonceLen int      `json:"nonce_len"`
 	PackSize int      `json:"pack_size"`
@@ -64,7 +65,7 @@ func c08Run(c *Ctx, cs c08Case) {
 		timeout = 400 * time.Millisecond
 	}
 	rt.CaseLog("C08 %s/%s/%s", cs.Script.Flow, cs.Edit, cs.CutClass)
-	res := lpRun(c.Seed, cs.Script, cfg, lpOptions{CutSeed: cs.CutSeed, CutClass: cs.CutClass, Timeout: timeout})
+	res := lpRun(c.Seed, cs.Script, cfg, lpOptions{CutSeed: cs.CutSeed, CutClass: cs.CutClass, Timeout: timeout, Overtake: cs.Overtake})
 	if res.kit != nil {
 		defer res.kit.teardown()
 	}
@@ -160,6 +161,20 @@ func c08Run(c *Ctx, cs c08Case) {
 		return
 	}
 	k := res.kit
+	wantPS0 := 512
+	if cs.PackSize > 0 {
+		wantPS0 = cs.PackSize
+	}
+	// the announced size must be in force as soon as Login has returned
+	// success (the next request is sent with it), also when the trailing
+	// end-of-message packet of the reply has not arrived yet
+	if got := k.conn.PacketSize(); got != wantPS0 {
+		r.Violate("packet-size-not-the-announced"+sigTail, fmt.Sprintf("%s: PacketSize() = %d right after Login returned success, the server announced %d", describe(), got, wantPS0), cs)
+		return
+	}
+	if res.heldEOM != nil {
+		k.tr.Feed(res.heldEOM)
+	}
 	if !awaitIdle(k.tr, 10*time.Second) {
 		r.Inconclusive("reader not idle after login")
 		return
@@ -355,7 +370,17 @@ func runC08(c *Ctx) {
 	mk := func(s lpScript, edit string, cut string, bits, nl, ps, rem int, idx int) {
 		class, reason := lpClassify(s)
 		c08Hexify(&s)
-		cases = append(cases, c08Case{Script: s, Edit: edit, CutClass: cut, CutSeed: fmt.Sprintf("%s/%d", edit, idx), KeyBits: bits, NonceLen: nl, PackSize: ps, Remotes: rem, Class: class, Reason: reason})
+		cs := c08Case{Script: s, Edit: edit, CutClass: cut, CutSeed: fmt.Sprintf("%s/%d", edit, idx), KeyBits: bits, NonceLen: nl, PackSize: ps, Remotes: rem, Class: class, Reason: reason}
+		cases = append(cases, cs)
+		if class == "accept" {
+			// the same valid script with the reply overtaking the writer,
+			// and with the trailing end-of-message packet arriving late
+			cs.Overtake = true
+			cases = append(cases, cs)
+			cs.Overtake = false
+			cs.CutClass = "late-eom"
+			cases = append(cases, cs)
+		}
 	}
 	rnd := rt.NewRand(c.Seed, "c08")
 	// valid scripts
